@@ -5,7 +5,7 @@
    transform_rows is modelled as repaired by fixes/C15-one-knot-rows.diff). *)
 From QV.lib Require Import Prelude.
 From QV.model Require Import C15_Model.
-From QV.proof Require Import C15_Proofs C15_Proofs_Ext.
+From QV.proof Require Import C15_Proofs C15_Proofs_Ext C15_Proofs_KDE.
 From QV.lib Require Import Chunks.
 From Coq Require Import QArith Qround.
 Local Open Scope Q_scope.
@@ -448,3 +448,45 @@ Proof.
   - intros k Hk. assert (k = 1%nat) by lia. subst k. split; reflexivity.
   - repeat split; vm_compute; reflexivity.
 Qed.
+
+(* ====================================================================================== *)
+(* The Gaussian KDE after the splat (what warp_image RETURNS)                             *)
+(* ====================================================================================== *)
+
+(* correlation with ANY symmetric kernel (centre k0, weights ks at distance 1..R, every radius R — also
+   larger than the signal) under half-sample reflection multiplies the sum of the signal by the kernel
+   mass k0 + 2 (k1 + ... + kR); a normalised kernel therefore preserves it *)
+Theorem C15_sym_filter_total :
+  forall (n : nat) (x : nat -> Q) (k0 : Q) (ks : list Q),
+    (1 <= n)%nat ->
+    fsum n (sym_filter k0 ks n x) == kernel_mass k0 ks * fsum n x.
+Proof. exact (fun n x k0 ks Hn => sym_filter_total n x Hn k0 ks). Qed.
+Print Assumptions C15_sym_filter_total.
+
+(* two dimensions: axis 0 then axis 1 *)
+Theorem C15_kde2_total :
+  forall (k0 : Q) (ks : list Q) (k0' : Q) (ks' : list Q) (R C : nat) (a : nat -> nat -> Q),
+    (1 <= R)%nat -> (1 <= C)%nat ->
+    total2 R C (kde2 k0 ks k0' ks' R C a) == kernel_mass k0' ks' * (kernel_mass k0 ks * total2 R C a).
+Proof. exact kde2_total. Qed.
+Print Assumptions C15_kde2_total.
+
+(* the weight map AFTER the KDE sums to the number of points, for every normalised symmetric kernel
+   (i.e. every kde_sigma and truncation radius), every canvas and every point list — under the oracle
+   contract that scipy.ndimage.gaussian_filter(mode="reflect") is this filter *)
+Theorem C15_kde_weights_total :
+  forall (k0 : Q) (ks : list Q) (rows cols : Z) (pts : list vec),
+    (0 < rows)%Z -> (0 < cols)%Z -> kernel_mass k0 ks == 1 ->
+    total2 (Z.to_nat rows) (Z.to_nat cols) (kde_weights k0 ks rows cols pts) == qn (length pts).
+Proof. exact kde_weights_total. Qed.
+Print Assumptions C15_kde_weights_total.
+
+(* a kernel wider than the 3-sample signal (radius 4), asymmetric data: the sum 1+2+4 is preserved
+   while the samples themselves change *)
+Example C15_nonvacuous_kde :
+  let x := fun i : nat => match i with 0%nat => 1 | 1%nat => 2 | _ => 4 end in
+  kernel_mass (1 # 3) [1 # 6; 1 # 12; 1 # 24; 1 # 24] == 1 /\
+  map (fun i => Qred (sym_filter (1 # 3) [1 # 6; 1 # 12; 1 # 24; 1 # 24] 3 x i)) [0; 1; 2]%nat
+  = [23 # 12; 55 # 24; 67 # 24] /\
+  fsum 3 (sym_filter (1 # 3) [1 # 6; 1 # 12; 1 # 24; 1 # 24] 3 x) == 7.
+Proof. cbv zeta. split; [|split]; vm_compute; reflexivity. Qed.
